@@ -84,6 +84,14 @@ def gen_cases(rng, tier, boost=1):
                 continue
             cases.append("2 %d %d %s" % (rng.randrange(4), kind, fmt_list(tup)))
             dist["kinds"] += 1
+    # 4. super-variable phrases with brace-wrapped units: "{X}" for every special / digit / other unit,
+    # with and without text around it (the {n} substitution must not let anything through unescaped)
+    for x in [38, 60, 62, 34, 39, 48, 49, 57, 47, 58, 97, 123, 125, 0, 127]:
+        for pre in ([], [97], [38], [123]):
+            for post in ([], [98], [60], [125], [123, 48, 125]):
+                for w in (0, 1, 2):
+                    cases.append("2 %d 4 %s" % (w, fmt_list(pre + [123, x, 125] + post)))
+                    dist["kinds"] += 1
     return cases, dist
 
 
